@@ -441,8 +441,9 @@ func gen(r *h.Rand, tier string, emit func([]string)) {
 	for c := 0; c < cases; c++ {
 		var ops []string
 		p := h.Pick(r, []int{4, 4, 5, 6, 7, 8, 9, 10, 10, 11, 12, 12, 14})
-		if r.Chance(0.06) {
-			p = h.Pick(r, []int{16, 18})
+		big := r.Chance(0.04)
+		if big {
+			p = h.Pick(r, []int{16, 16, 18})
 		}
 		m := 1 << uint(p)
 		nv := 3 + r.Intn(3)
@@ -482,6 +483,9 @@ func gen(r *h.Rand, tier string, emit func([]string)) {
 		}
 		seeds := []uint64{r.Uint64(), r.Uint64(), r.Uint64()}
 		steps := 6 + r.Intn(10)
+		if big {
+			steps = 4
+		}
 		for i := 0; i < steps; i++ {
 			v := strconv.Itoa(r.Intn(nv))
 			w := strconv.Itoa(r.Intn(nv))
@@ -533,7 +537,7 @@ func gen(r *h.Rand, tier string, emit func([]string)) {
 		if c == 3 { // the real xxhash: a key whose hash has 31 zero bits below the 16 index bits
 			ops = append(ops, "realx 50000 "+h.HexS("cpu,host=server-862707449"))
 		}
-		if r.Chance(0.3) { // larger cardinalities for the error statistics
+		if r.Chance(0.3) && !big { // larger cardinalities for the error statistics
 			big := strconv.Itoa(p) + " " + strconv.FormatUint(r.Uint64(), 10) + " " + strconv.Itoa(capN(20*m)) + " 0 " + strconv.FormatUint(r.Uint64(), 10) + " " + strconv.Itoa(capN(10*m))
 			ops = append(ops, "union "+big, "unionc "+big)
 		}
